@@ -5,8 +5,11 @@
    date model (Model/DateIP.v; the time.Parse fallback of ParseHTTPDate is not modelled: a date the fast parser
    declines counts as unparsable), the byte-range branch (ParseByteRange, UpdateByteRange of both readers as the
    slice they deliver, SetContentRange, 206/416), HEAD handling, Last-Modified (AppendHTTPDate as the C31
-   formatter).  The gzip codec is a variable: `compressible` says whether openFSFile produced a compressed
-   variant (isFileCompressible and the compressor are not modelled) and `zlen` is its length.
+   formatter), the choice of the content coding (br / zstd / gzip) and the modification time of the compressed
+   variant (compressFileNolock stamps the cache file with os.Chtimes(tmp, time.Now(), fileInfo.ModTime());
+   newCompressedFSFileCache takes fileInfo.ModTime() directly).  The codecs are a variable: `compressible` says whether
+   openFSFile produced a compressed variant (isFileCompressible and the compressors are not modelled) and `zlen` is
+   its length.
    Path handling, directory indexes, caching and file-handle accounting belong to C23 / C25.  No proofs here. *)
 From FH Require Import Model.Base Gen.GenC30 Gen.GenC24 Model.Ints Model.DateIP Spec.HttpDate Model.ByteRange.
 Open Scope Z_scope.
@@ -45,6 +48,30 @@ Definition IfModifiedSince (ims : bytes) (mtime : Z) : bool :=
 Definition contentRangeValue (s e n : Z) : bytes :=
   strBytes ++ [32%N] ++ dec_digits s ++ [45%N] ++ dec_digits e ++ [47%N] ++ dec_digits n.
 
+(* the content coding handleRequest negotiates: the switch over compressBrotli / compressZstd / gzip; [] = none *)
+Definition chooseCoding (brotli zstd : bool) (ae : bytes) : bytes :=
+  if brotli && hasAcceptEncoding ae strBr then strBr
+  else if zstd && hasAcceptEncoding ae strZstd then strZstd
+  else if hasAcceptEncoding ae strGzip then strGzip
+  else [].
+
+(* os.Chtimes(name, atime, mtime) as the pair of times the file ends up with *)
+Definition Chtimes (atime mtime : Z) : Z * Z := (atime, mtime).
+(* the modification time newCompressedFSFile / newFSFile read from the stat of the compressed cache file that
+   compressFileNolock produced at time `now` from a file modified at `origMtime`:
+   os.Chtimes(tmpFilePath, time.Now(), fileInfo.ModTime()) *)
+Definition compressedFileMtime (now origMtime : Z) : Z := snd (Chtimes now origMtime).
+
+(* openFSFile when a compressed sibling already exists on disk (stat mtime sibMtime): it is re-created only when the
+   original is at least one second NEWER (fileInfoOriginal.ModTime().Sub(fileInfo.ModTime()) >= time.Second);
+   otherwise the sibling is served as it is, with ITS modification time as ff.lastModified *)
+Definition siblingStale (origMtime sibMtime : Z) : bool := origMtime - sibMtime >=? 1.
+Definition compressedVariantMtime (now origMtime : Z) (sibling : option Z) : Z :=
+  match sibling with
+  | Some sm => if siblingStale origMtime sm then compressedFileMtime now origMtime else sm
+  | None => compressedFileMtime now origMtime
+  end.
+
 Inductive fsbody :=
 | BNone                         (* no body bytes on the wire *)
 | BSlice (start len : Z)        (* the served variant's bytes [start, start+len) *)
@@ -55,30 +82,31 @@ Record fsout := FsOut {
   fo_contentRange : bytes;      (* Content-Range value, [] = absent *)
   fo_contentLength : Z;         (* Content-Length written; -1 = not determined by this model (error / 304) *)
   fo_body : fsbody;
-  fo_gzip : bool;               (* Content-Encoding: gzip and Vary: Accept-Encoding *)
+  fo_coding : bytes;            (* Content-Encoding value (and Vary: Accept-Encoding), [] = identity *)
   fo_lastModified : bytes;      (* Last-Modified value, [] = absent *)
   fo_acceptRanges : bool        (* Accept-Ranges: bytes *)
 }.
 
-Definition strGzip : bytes := s2b "gzip".
-
-Definition fs_handle (size mtime : Z) (acceptByteRange compress : bool) (isHead : bool) (range ims ae : bytes)
+Definition fs_handle (size mtime now : Z) (acceptByteRange compress brotli zstd : bool) (isHead : bool) (range ims ae : bytes)
                      (compressible : bool) (zlen : Z) : fsout :=
   let byteRange := range in
-  let mustCompress := match byteRange with [] => compress && hasAcceptEncoding ae strGzip | _ => false end in
+  let coding := match byteRange with [] => if compress then chooseCoding brotli zstd ae else [] | _ => [] end in
+  let mustCompress := match coding with [] => false | _ => true end in
   let compressed := mustCompress && compressible in                 (* ff.compressed *)
+  let served := if compressed then coding else [] in
   let ffLen := if compressed then zlen else size in                  (* ff.contentLength *)
-  if negb (IfModifiedSince ims mtime) then FsOut StatusNotModified24 [] (-1) BNone false [] false   (* ctx.NotModified() *)
+  let ffMtime := if compressed then compressedFileMtime now mtime else mtime in   (* ff.lastModified, to the second *)
+  if negb (IfModifiedSince ims ffMtime) then FsOut StatusNotModified24 [] (-1) BNone [] [] false   (* ctx.NotModified() *)
   else
-    let lm := spec_format_http_date mtime in
+    let lm := spec_format_http_date ffMtime in
     let ranged := acceptByteRange && match byteRange with [] => false | _ => true end in
     if ranged then
       match ParseByteRange byteRange ffLen with
-      | BRErr => FsOut StatusRequestedRangeNotSatisfiable [] (-1) (if isHead then BNone else BError) false [] false
+      | BRErr => FsOut StatusRequestedRangeNotSatisfiable [] (-1) (if isHead then BNone else BError) [] [] false
       | BROk s e =>
           let n := e - s + 1 in
           FsOut StatusPartialContent (contentRangeValue s e ffLen) n (if isHead then BNone else BSlice s n)
-                compressed lm true
+                served lm true
       end
     else
-      FsOut StatusOK24 [] ffLen (if isHead then BNone else BSlice 0 ffLen) compressed lm acceptByteRange.
+      FsOut StatusOK24 [] ffLen (if isHead then BNone else BSlice 0 ffLen) served lm acceptByteRange.
